@@ -134,6 +134,11 @@ func loadCorpus(rng *vh.Rng) (*corpus, error) {
 			}
 		}
 	}
+	for i := 0; i < 120; i++ {
+		b := synthBlock(rng)
+		c.add("block:*", b)
+		c.add("synth", b)
+	}
 	// eras without a fixture borrow the nearest one (type confusion is part of the quantifier)
 	alias := func(dst, src string) {
 		for _, k := range []string{"block:", "header:", "tx:", "body:"} {
@@ -212,6 +217,65 @@ func loadCorpus(rng *vh.Rng) (*corpus, error) {
 		c.notes = append(c.notes, fmt.Sprintf("corpus %s: %d seeds", k, len(c.groups[k])))
 	}
 	return c, nil
+}
+
+// synthBlock builds a small Shelley-shaped block [header, [bodies], [witness sets], metadata, ...]
+// out of random items: bodies are maps with an outputs array under key 1, witness sets are maps
+// with datums / redeemers / scripts, the metadata map has (mostly) integer keys; every container
+// may use any header width or the indefinite form.  These reach the extract*Offsets walkers.
+func synthBlock(r *vh.Rng) []byte {
+	arr := func(n int, f func() *vh.Item) *vh.Item {
+		xs := make([]*vh.Item, n)
+		for i := range xs {
+			xs[i] = f()
+		}
+		return vh.A(xs...)
+	}
+	key := func(k uint64) *vh.Item {
+		if r.Intn(6) == 0 {
+			return vh.PickOne(r, []*vh.Item{vh.T("k"), vh.NI(0), vh.B([]byte{1}), vh.A(), vh.Null()})
+		}
+		return vh.U(k)
+	}
+	leaf := func() *vh.Item { return vh.RandItem(r, 1) }
+	n := r.Intn(4)
+	body := func() *vh.Item {
+		outs := arr(r.Intn(4), func() *vh.Item {
+			if r.Bool() {
+				return vh.A(vh.B(r.Bytes(29)), vh.U(uint64(r.Intn(1000))))
+			}
+			return vh.M(vh.U(0), vh.B(r.Bytes(29)), vh.U(1), vh.U(5))
+		})
+		kv := []*vh.Item{key(0), arr(r.Intn(3), leaf), key(1), outs, key(2), vh.U(uint64(r.Intn(100000)))}
+		if r.Intn(3) == 0 {
+			kv = append([]*vh.Item{key(3), leaf()}, kv...)
+		}
+		return vh.M(kv...)
+	}
+	wit := func() *vh.Item {
+		red := arr(r.Intn(3), func() *vh.Item { return vh.A(vh.U(uint64(r.Intn(4))), vh.U(uint64(r.Intn(3))), leaf(), vh.A(vh.U(1), vh.U(2))) })
+		if r.Bool() {
+			red = vh.M(vh.A(vh.U(0), vh.U(uint64(r.Intn(3)))), vh.A(leaf(), vh.A(vh.U(1), vh.U(2))))
+		}
+		return vh.M(key(0), arr(r.Intn(2), leaf), key(4), arr(r.Intn(3), leaf), key(5), red, key(1), arr(r.Intn(2), leaf), key(3), arr(r.Intn(2), func() *vh.Item { return vh.B(r.Bytes(5)) }))
+	}
+	var mkv []*vh.Item
+	for i := 0; i < n+1; i++ {
+		if r.Intn(3) != 0 {
+			mkv = append(mkv, key(uint64(i)), leaf())
+		}
+	}
+	meta := vh.M(mkv...)
+	if r.Intn(3) == 0 {
+		meta.F = vh.Findef
+	}
+	parts := []*vh.Item{arr(2, leaf), arr(n, body), arr(n, wit), meta}
+	if r.Bool() {
+		parts = append(parts, arr(r.Intn(2), func() *vh.Item { return vh.U(uint64(r.Intn(3))) }))
+	}
+	blk := vh.A(parts...)
+	blk = vh.Reform(r, blk, vh.ReformOpts{Containers: true, Ints: true, Indef: true, Prob: 40})
+	return blk.Enc()
 }
 
 // ---------------------------------------------------------------------------
@@ -585,6 +649,21 @@ func adversarial(thorough bool) []struct {
 			// inside a message-like envelope [0, <inflated>]
 			add(append([]byte{0x82, 0x00}, head(mt, inf.n, inf.w)...), "inflate-in-list")
 			add(append([]byte{0x83, 0x01}, append(head(mt, inf.n, inf.w), 0x00)...), "inflate-in-list")
+		}
+	}
+	// every header form of every major type cut at every length, bare and as the last element of a list / map / tag
+	for mt := byte(0); mt < 8; mt++ {
+		for _, w := range []int{1, 2, 4, 8} {
+			h := head(mt, 0x0102030405060708>>(8*uint(8-w)), w)
+			for cut := 1; cut <= len(h); cut++ {
+				add(h[:cut], "trunc-head")
+				add(append([]byte{0x81}, h[:cut]...), "trunc-head")
+				add(append([]byte{0x83, 0x00, 0x80}, h[:cut]...), "trunc-head")
+				if cut < len(h) {
+					add(append([]byte{0xa1, 0x00}, h[:cut]...), "trunc-head")
+					add(append([]byte{0xd8, 0x18}, h[:cut]...), "trunc-head")
+				}
+			}
 		}
 	}
 	ks := []int{1000, 65536}
